@@ -7,6 +7,7 @@ use std::time::{Duration, Instant};
 
 struct Shared {
     done: AtomicUsize, // jobs whose `run` has returned
+    released: std::sync::atomic::AtomicBool, // `flood`: set once every job has been submitted
     runs: Vec<AtomicUsize>,
     barrier: Option<Barrier>,
     gate: (Mutex<usize>, Condvar), // number of finished non-blocker jobs
@@ -37,6 +38,13 @@ impl Task for Job {
                 return;
             }
             3 => std::thread::sleep(Duration::from_micros(200 + (self.id % 7) * 150)),
+            4 => {
+                // occupies its worker until the owner has submitted every job (so that they all queue up)
+                let deadline = Instant::now() + Duration::from_secs(5);
+                while !self.sh.released.load(Ordering::SeqCst) && Instant::now() < deadline {
+                    std::thread::sleep(Duration::from_micros(200));
+                }
+            }
             _ => {}
         }
         if self.kind != 2 {
@@ -58,6 +66,7 @@ impl Drop for Done {
 }
 
 /// `POOL n=<size> jobs=<k> mode=<plain|sleep|barrier|blocker|unwind>`
+/// `flood`: the first n jobs occupy every worker until all jobs have been submitted (a long queue builds up);
 /// `unwind`: the pool's owner panics after submitting (sleeping) jobs, so the pool is shut down by an unwinding thread;
 /// `doneatreturn` = number of jobs that had finished when the shutdown returned.
 pub fn pool(arg: &str) -> String {
@@ -76,6 +85,7 @@ pub fn pool(arg: &str) -> String {
     let par = n.min(jobs);
     let sh = Arc::new(Shared {
         done: AtomicUsize::new(0),
+        released: std::sync::atomic::AtomicBool::new(false),
         runs: (0..jobs).map(|_| AtomicUsize::new(0)).collect(),
         barrier: if mode == "barrier" && par > 0 { Some(Barrier::new(par)) } else { None },
         gate: (Mutex::new(0), Condvar::new()),
@@ -97,10 +107,13 @@ pub fn pool(arg: &str) -> String {
                     // job 0 blocks until all other jobs are done: needs the others to proceed on the remaining workers
                     "blocker" if id == 0 && n >= 2 => 2,
                     "sleep" | "unwind" => 3,
+                    // flood: the first n jobs pin every worker while all the others are submitted and wait in the queue
+                    "flood" if id < n => 4,
                     _ => 0,
                 };
                 pool.execute(Job { id: id as u64, kind, need: jobs.saturating_sub(1), sh: Arc::clone(&sh2) });
             }
+            sh2.released.store(true, Ordering::SeqCst);
             if mode2 == "unwind" {
                 panic!("the owner of the pool panics: the pool is dropped while unwinding");
             }
